@@ -295,7 +295,7 @@ func RunCase(b *common.Build, st *Stats, c *Case, dir string) *Outcome {
 			st.SiteMax.Add(s, n-st.SiteMax.Get(s))
 		}
 	}
-	logf("baseline: exit=%d outputs=%d sites>=2: %v", base.exit, len(base.outputs), sites)
+	logf("baseline: exit=%d outputs=%d schedule=%s sites>=2: %v", base.exit, len(base.outputs), bd, sites)
 	for pd, data := range base.outputs {
 		if bytes.Contains(data, []byte(base.root)) {
 			out.Verdicts = append(out.Verdicts, common.Verdict{Property: "C16", Clause: "D2", Disc: "absolute-path-in-output", Expected: "no run-specific data", Observed: "the scratch root appears in " + pd + "/wire_gen.go", Detail: "baseline"})
@@ -352,7 +352,7 @@ func RunCase(b *common.Build, st *Stats, c *Case, dir string) *Outcome {
 				break
 			}
 		}
-		logf("config %q: exit=%d diffs=%d", cfg.Label, rr.exit, diffs)
+		logf("config %q: exit=%d diffs=%d schedule=%s", cfg.Label, rr.exit, diffs, d)
 		if diffs == 0 {
 			st.Counts.Add("configs_equal_to_baseline", 1)
 		}
@@ -523,3 +523,5 @@ func CorpusCase(r *rand.Rand, name string, thorough bool) *Case {
 	c.Configs = append([]Config{baseline()}, cfgs...)
 	return c
 }
+
+func sortStrings(s []string) { sort.Strings(s) }
